@@ -293,6 +293,13 @@ def programG (cfg : Cfg) : G Program := do
           chunks := chunks ++ [⟨.extFiles (← bytesN 8) fs, ← padG pad⟩]
       for t in tilesetSpecs do
         chunks := chunks ++ [⟨.tileset t, ← padG pad⟩]
+      -- external-file entries may be spread over several chunks
+      if cfg.extFiles then
+        if ← chance 1 6 then
+          let fs ← (List.range (← range 1 3)).mapM (fun _ => do
+            let id ← if ← chance 1 2 then below 5 else (do let x ← u32; pure x.toNat)
+            pure (UInt32.ofNat id, ← bytesN 8, ← nameG))
+          chunks := chunks ++ [⟨.extFiles (← bytesN 8) fs, ← padG pad⟩]
       for l in layerItems do
         chunks := chunks ++ [⟨.layer l, ← padG pad⟩] ++ (← maybeUD cfg pad)
       if cfg.tags then
@@ -318,6 +325,10 @@ def programG (cfg : Cfg) : G Program := do
                   (← i32, ← i32)))
           chunks := chunks ++ [⟨.slice ⟨UInt32.ofNat (flags + hi), ← u32, ← nameG, keys⟩, ← padG pad⟩]
                       ++ (← maybeUD cfg pad)
+    if f != 0 && cfg.extFiles then
+      if ← chance 1 10 then
+        let id ← below 6
+        chunks := chunks ++ [⟨.extFiles (← bytesN 8) [(UInt32.ofNat id, ← bytesN 8, ← nameG)], ← padG pad⟩]
     -- cels of this frame
     let mut celGroups : List (List ChunkSpec) := []
     for l in [0:nLayers] do
@@ -421,7 +432,9 @@ def rgbaBytes (px : List RGBA) : Bytes := (px.map (fun c => [c.r, c.g, c.b, c.a]
     backdrops, layer 1 (blend mode `mode`, opacities `lop`/`cop`) the sources -/
 def blendProgram (mode lop cop w h : Nat) (back src : List RGBA) : Program :=
   let hdr : HeaderSpec :=
-    { fileSize := 0, width := UInt16.ofNat w, height := UInt16.ofNat h, depth := 32, flags := 1,
+    { fileSize := 0, width := UInt16.ofNat w, height := UInt16.ofNat h, depth := 32,
+      -- the header flag word is not interpreted by the library: vary it
+      flags := [1, 3, 7, 0, 0xFFFFFFFF].getD ((mode + lop + cop) % 5) 1,
       speed := 100, ph1 := 0, ph2 := 0, tci := 0, ign1 := 0, ign2 := 0, numColors := 0,
       pixelW := 1, pixelH := 1, gridX := 0, gridY := 0, gridW := 16, gridH := 16,
       reserved := zeros 84 }
